@@ -1,7 +1,7 @@
 """C13 — one exact rule maps GraphQL type modifiers to Option / Vec nesting.
 
 Finite space, fully enumerated: every type expression of list depth <= 4 (62) x every kind of named
-type x every position (response field, variable, input-object field, @oneOf member) x both schema
+type x every position (response field, variable, input-object field, @oneOf member, object field narrowing an interface field) x both schema
 formats. Model = the ten-line structural rule `gql.rust_type`; the emitted field types are read from
 the real generator's token stream (syn). Conformance: the response-field and variable modules are
 compiled in the farm and fed, per field, one conforming value and one value with a null injected at
@@ -64,6 +64,34 @@ def build_case(kind, position, exprs):
             expected[fn] = (t, leaf)
         types.append(gql.obj("Q", fields))
         doc = gql.Doc([gql.Op("query", "Op", sel)])
+    elif position == "object_refines_interface":
+        # the interface declares every field with all `!` removed; the implementing object narrows it to the
+        # expression under test (legal covariance); the query selects the field on the object
+        def loosen(t):
+            if t[0] == "NN":
+                return loosen(t[1])
+            if t[0] == "L":
+                return ("L", loosen(t[1]))
+            return t
+        ifields, ofields, sel = [], [], []
+        for i, t in enumerate(exprs):
+            fn = "f%d" % i
+            ifields.append(gql.FieldDef(fn, loosen(t)))
+            ofields.append(gql.FieldDef(fn, t))
+            if kind == "Obj":
+                sel.append(gql.Field(fn, [gql.Field("x")]))
+                leaf = "OpImplF%d" % i
+            elif kind in ("Iface", "Uni"):
+                sel.append(gql.Field(fn, [gql.TN()]))
+                leaf = "OpImplF%d" % i
+            else:
+                sel.append(gql.Field(fn))
+                leaf = kind
+            expected[fn] = (t, leaf)
+        types.append(gql.iface("RBase", ifields))
+        types.append(gql.obj("RImpl", ofields, ["RBase"]))
+        types.append(gql.obj("Q", [("impl", "RImpl"), ("base", "RBase")]))
+        doc = gql.Doc([gql.Op("query", "Op", [gql.Field("impl", sel)])])
     elif position == "variable":
         types.append(gql.obj("Q", [("a", "Int")]))
         vars_ = []
@@ -139,7 +167,7 @@ def run(tier):
     rep = Report("C13", "model_checking", tier)
     cases = []
     for position, kinds in (("response", OUT_KINDS), ("variable", IN_KINDS), ("input_field", IN_KINDS),
-                            ("oneof_member", IN_KINDS)):
+                            ("oneof_member", IN_KINDS), ("object_refines_interface", OUT_KINDS)):
         for kind in kinds:
             exprs = gql.all_type_exprs(kind, 4)
             schema, doc, expected = build_case(kind, position, exprs)
@@ -168,7 +196,7 @@ def run(tier):
             if aliases.get(a) != target:
                 rep.violation("builtin_scalar_alias", dict(label, alias=a), "type %s = %r, expected %s" % (a, aliases.get(a), target))
         holder = {"response": "ResponseData", "variable": "Variables", "input_field": "Holder",
-                  "oneof_member": "Holder"}[c["position"]]
+                  "oneof_member": "Holder", "object_refines_interface": "OpImpl"}[c["position"]]
         item = next((it for it in mod["items"] if it["kind"] in ("struct", "enum") and it["name"] == holder), None)
         if item is None:
             rep.violation("holder_missing", label, holder)
@@ -194,7 +222,7 @@ def run(tier):
                 samples.append({**label, "type_expr": gql.type_str(t), "rust": got})
         if set(found) - set(c["expected"]):
             rep.violation("unexpected_members", label, sorted(set(found) - set(c["expected"])))
-        if c["fmt"] == "sdl" and c["position"] in ("response", "variable"):
+        if c["fmt"] == "sdl" and c["position"] in ("response", "variable", "object_refines_interface"):
             prelude = "pub type Date = String;"
             fc = Case(r["tokens"], [("op", "Op")], prelude=prelude)
             c["farm_case"] = farm.add(fc)
@@ -210,14 +238,15 @@ def run(tier):
             continue
         lv = LEAF_VALUE[c["kind"]]
         base = {w: conforming(t, lv) for w, (t, _) in c["expected"].items()}
-        what = "resp" if c["position"] == "response" else "vars"
-        freqs.append({"case": cid, "module": "op", "what": what, "arg": base})
+        what = "resp" if c["position"] in ("response", "object_refines_interface") else "vars"
+        wrap = (lambda v: {"impl": v}) if c["position"] == "object_refines_interface" else (lambda v: v)
+        freqs.append({"case": cid, "module": "op", "what": what, "arg": wrap(base)})
         fmeta.append((c, None, None, True))
         for w, (t, _) in c["expected"].items():
             for level in range(depth_of(t) + 1):
                 v = dict(base)
                 v[w] = conforming(t, lv, null_at=level)
-                freqs.append({"case": cid, "module": "op", "what": what, "arg": v})
+                freqs.append({"case": cid, "module": "op", "what": what, "arg": wrap(v)})
                 fmeta.append((c, w, level, nullable_at(t, level)))
     fres = farm.run(freqs)
     validated = 0
@@ -234,7 +263,7 @@ def run(tier):
         "traces_validated_against_impl": validated,
         "evaluations": len(reqs) + validated, "distinct_nontrivial": states,
         "rule": "state = (type expression of list depth <= 4, kind of named type, position, schema format); all 62 "
-                "expressions x 10 output / 8 input kinds x 4 positions (input fields also with a declared default value) x 2 formats (the @oneOf position only for "
+                "expressions x 10 output / 8 input kinds x 5 positions (response field, variable, input field - also with a declared default value -, @oneOf member, field of an object that narrows an interface's declaration) x 2 formats (the @oneOf position only for "
                 "nullable outermost expressions); transition = comparison of the emitted field type with the "
                 "model rule, plus one conformance run per (field, null injected at nesting level) on compiled code",
         "exhaustive": True,
